@@ -414,9 +414,15 @@ func repsim(args []string) error {
 		stats["follower_snapshot_rejoins"]++
 		// D: all live again
 		cl.workload(g, 30, 4, stats, &mu)
-		idx, synced := cl.waitSynced(60 * time.Second)
+		idx, synced := cl.waitSynced(120 * time.Second)
 		if !synced {
-			fail("replicas did not reach a common applied index")
+			why := "replicas did not reach a common applied index:"
+			for _, n := range cl.nodes {
+				if n.nd != nil {
+					why += fmt.Sprintf(" r%d applied=%d snap=%d lead=%v", n.id, n.nd.GetAppliedIndex(), n.nd.GetLastSnapIndex(), n.nd.IsLead())
+				}
+			}
+			fail(why)
 			continue
 		}
 		// let the short expiries pass, so that the read API sees the same side on every replica
